@@ -251,87 +251,106 @@ def signal_handler_table():
     return rows
 
 
+GROUPS = ["cancel", "mismatch", "exit", "setdef", "escape", "signals", "sighandler", "placeholders", "xml"]
+
+
+def group_lines(g):
+    """The Lean definitions of one table group (raises RuntimeError when the source no longer has the shape the group reads)."""
+    if g == "cancel":
+        cancel = enum_variants(read("nextest-runner/src/reporter/events.rs"), "CancelReason")
+        return ["/-- `CancelReason` variants in declaration order (the derived `Ord` is the severity order) -/",
+                f"def cancelReasonOrder : List String := {lean_str_list(cancel)}"]
+    if g == "mismatch":
+        mismatch = enum_variants(read("nextest-metadata/src/test_list.rs"), "MismatchReason")
+        return ["/-- `MismatchReason` variants in declaration order -/",
+                f"def mismatchReasonOrder : List String := {lean_str_list(mismatch)}"]
+    if g == "exit":
+        codes = exit_codes(); ee = expected_error_codes(); arms = exec_run_map()
+        def code_of(outcome):
+            return 0 if outcome == "0" else int(codes[ee[outcome]])
+        return ["/-- the final `match` of `exec_run` composed with `ExpectedError::process_exit_code` and `NextestExitCode` -/",
+                "def execRunExit : List (String × Nat) := [" + ", ".join(f'("{k}", {code_of(v)})' for k, v in arms) + "]",
+                "",
+                f"def exitNoTestsRun : Nat := {codes['NO_TESTS_RUN']}",
+                f"def exitTestRunFailed : Nat := {codes['TEST_RUN_FAILED']}",
+                f"def exitSetupScriptFailed : Nat := {codes['SETUP_SCRIPT_FAILED']}"]
+    if g == "setdef":
+        preds = parse_set_def_table()
+        return ["/-- `parse_set_def`'s alternatives in `alt` order: (name, default matcher | nullary | platform, SetDef variant) -/",
+                "def setDefTable : List (String × String × String) := [" + ", ".join(f'("{a}", "{b}", "{c}")' for a, b, c in preds) + "]"]
+    if g == "escape":
+        esc = escape_table()
+        return ["/-- `parse_escaped_char`'s single-character escapes: (character after the backslash, resulting code point) -/",
+                "def escapeTable : List (Nat × Nat) := [" + ", ".join(f"({a}, {b})" for a, b in esc) + "]"]
+    if g == "signals":
+        shut, timeout_t, jc, (n_group, n_any) = signal_tables()
+        return ["/-- `shutdown_terminate_method` composed with `UnitTerminateSignal::signal`: request ↦ signal -/",
+                "def shutdownSignalTable : List (String × String) := [" + ", ".join(f'("{a}", "{b}")' for a, b in shut) + "]",
+                "",
+                "/-- `timeout_terminate_method` -/",
+                "def timeoutSignalTable : List (String × String) := [" + ", ".join(f'("{a}", "{b}")' for a, b in timeout_t) + "]",
+                "",
+                "/-- `job_control_child` -/",
+                "def jobControlTable : List (String × String) := [" + ", ".join(f'("{a}", "{b}")' for a, b in jc) + "]",
+                "",
+                "/-- `libc::kill` call sites in unix.rs: (addressed to the process group `-pid`, all) -/",
+                f"def killSites : Nat × Nat := ({n_group}, {n_any})"]
+    if g == "sighandler":
+        sigh = signal_handler_table()
+        return ["/-- signal.rs (unix): every registered signal and the event `recv` turns it into (the debug-only SIGQUIT-as-info switch off) -/",
+                "def signalHandlerTable : List (String × String) := [" + ", ".join(f'("{a}", "{b}")' for a, b in sigh) + "]"]
+    if g == "placeholders":
+        ph = junit_placeholders()
+        return ["/-- junit.rs: the texts stored in place of a stream that does not exist -/",
+                f'def junitStdoutStderrCombined : String := "{ph["STDOUT_STDERR_COMBINED"]}"',
+                f'def junitStdoutNotCaptured : String := "{ph["STDOUT_NOT_CAPTURED"]}"',
+                f'def junitStderrNotCaptured : String := "{ph["STDERR_NOT_CAPTURED"]}"',
+                f'def junitProcessFailedToStart : String := "{ph["PROCESS_FAILED_TO_START"]}"']
+    if g == "xml":
+        xt, xr, (xw, xa), xdirect, xranges = xml_filter_tables()
+        return ["/-- junit.rs `xml_string`: the code points it looks for, and the ones it removes -/",
+                f"def junitNoncharsTested : List Nat := [{', '.join(map(str, xt))}]",
+                f"def junitNoncharsRemoved : List Nat := [{', '.join(map(str, xr))}]",
+                "",
+                "/-- `TestcaseOrRerun`'s setter arms: (those whose text goes through `xml_string`, all) -/",
+                f"def junitSetterArms : Nat × Nat := ({xw}, {xa})",
+                "",
+                "/-- receivers on which a quick-junit text setter is called outside `TestcaseOrRerun` -/",
+                f"def junitDirectSetters : List String := {lean_str_list(xdirect)}",
+                "",
+                "/-- quick-junit `XmlString::new`: the inclusive code point ranges it removes (after `strip_ansi_escapes::strip_str`) -/",
+                "def xmlStringStripped : List (Nat × Nat) := [" + ", ".join(f"({a}, {b})" for a, b in xranges) + "]"]
+    raise RuntimeError(f"unknown table group {g}")
+
+
 def run(tables=None):
-    codes = exit_codes()
-    ee = expected_error_codes()
-    arms = exec_run_map()
-    cancel = enum_variants(read("nextest-runner/src/reporter/events.rs"), "CancelReason")
-    mismatch = enum_variants(read("nextest-metadata/src/test_list.rs"), "MismatchReason")
-    preds = parse_set_def_table()
-    esc = escape_table()
-    shut, timeout_t, jc, (n_group, n_any) = signal_tables()
-    xt, xr, (xw, xa), xdirect, xranges = xml_filter_tables()
-    sigh = signal_handler_table()
-    ph = junit_placeholders()
-    def code_of(outcome):
-        return 0 if outcome == "0" else int(codes[ee[outcome]])
-    lines = [
-        "/- GENERATED by tools/extract.py from /repo's working tree on every check run.  Do not edit. -/",
-        "namespace NextestModel.Gen",
-        "",
-        "/-- `CancelReason` variants in declaration order (the derived `Ord` is the severity order) -/",
-        f"def cancelReasonOrder : List String := {lean_str_list(cancel)}",
-        "",
-        "/-- `MismatchReason` variants in declaration order -/",
-        f"def mismatchReasonOrder : List String := {lean_str_list(mismatch)}",
-        "",
-        "/-- the final `match` of `exec_run` composed with `ExpectedError::process_exit_code` and `NextestExitCode` -/",
-        "def execRunExit : List (String × Nat) := [" + ", ".join(f'("{k}", {code_of(v)})' for k, v in arms) + "]",
-        "",
-        f"def exitNoTestsRun : Nat := {codes['NO_TESTS_RUN']}",
-        f"def exitTestRunFailed : Nat := {codes['TEST_RUN_FAILED']}",
-        f"def exitSetupScriptFailed : Nat := {codes['SETUP_SCRIPT_FAILED']}",
-        "",
-        "/-- `parse_set_def`'s alternatives in `alt` order: (name, default matcher | nullary | platform, SetDef variant) -/",
-        "def setDefTable : List (String × String × String) := [" + ", ".join(f'("{a}", "{b}", "{c}")' for a, b, c in preds) + "]",
-        "",
-        "/-- `parse_escaped_char`'s single-character escapes: (character after the backslash, resulting code point) -/",
-        "def escapeTable : List (Nat × Nat) := [" + ", ".join(f"({a}, {b})" for a, b in esc) + "]",
-        "",
-        "/-- `shutdown_terminate_method` composed with `UnitTerminateSignal::signal`: request ↦ signal -/",
-        "def shutdownSignalTable : List (String × String) := [" + ", ".join(f'("{a}", "{b}")' for a, b in shut) + "]",
-        "",
-        "/-- `timeout_terminate_method` -/",
-        "def timeoutSignalTable : List (String × String) := [" + ", ".join(f'("{a}", "{b}")' for a, b in timeout_t) + "]",
-        "",
-        "/-- `job_control_child` -/",
-        "def jobControlTable : List (String × String) := [" + ", ".join(f'("{a}", "{b}")' for a, b in jc) + "]",
-        "",
-        "/-- `libc::kill` call sites in unix.rs: (addressed to the process group `-pid`, all) -/",
-        f"def killSites : Nat × Nat := ({n_group}, {n_any})",
-        "",
-        "/-- signal.rs (unix): every registered signal and the event `recv` turns it into (the debug-only SIGQUIT-as-info switch off) -/",
-        "def signalHandlerTable : List (String × String) := [" + ", ".join(f'("{a}", "{b}")' for a, b in sigh) + "]",
-        "",
-        "/-- junit.rs: the texts stored in place of a stream that does not exist -/",
-        f'def junitStdoutStderrCombined : String := "{ph["STDOUT_STDERR_COMBINED"]}"',
-        f'def junitStdoutNotCaptured : String := "{ph["STDOUT_NOT_CAPTURED"]}"',
-        f'def junitStderrNotCaptured : String := "{ph["STDERR_NOT_CAPTURED"]}"',
-        f'def junitProcessFailedToStart : String := "{ph["PROCESS_FAILED_TO_START"]}"',
-        "",
-        "/-- junit.rs `xml_string`: the code points it looks for, and the ones it removes -/",
-        f"def junitNoncharsTested : List Nat := [{', '.join(map(str, xt))}]",
-        f"def junitNoncharsRemoved : List Nat := [{', '.join(map(str, xr))}]",
-        "",
-        "/-- `TestcaseOrRerun`'s setter arms: (those whose text goes through `xml_string`, all) -/",
-        f"def junitSetterArms : Nat × Nat := ({xw}, {xa})",
-        "",
-        "/-- receivers on which a quick-junit text setter is called outside `TestcaseOrRerun` -/",
-        f"def junitDirectSetters : List String := {lean_str_list(xdirect)}",
-        "",
-        "/-- quick-junit `XmlString::new`: the inclusive code point ranges it removes (after `strip_ansi_escapes::strip_str`) -/",
-        "def xmlStringStripped : List (Nat × Nat) := [" + ", ".join(f"({a}, {b})" for a, b in xranges) + "]",
-        "",
-        "end NextestModel.Gen",
-        "",
-    ]
+    """Regenerates Gen/Tables.lean.  Every group is read on its own: a group whose source no longer has the expected shape is
+    left out (the theorems that use it then no longer compile) and reported in the returned dict {group: error}."""
+    errors = {}
+    old_text = open(OUT).read() if os.path.exists(OUT) else ""
+    def old_block(g):
+        m = re.search(r"-- BEGIN " + g + r"\n(.*?)-- END " + g + r"\n", old_text, re.S)
+        return m.group(1).rstrip("\n").split("\n") if m else None
+    lines = ["/- GENERATED by tools/extract.py from /repo's working tree on every check run.  Do not edit. -/",
+             "namespace NextestModel.Gen", ""]
+    for g in GROUPS:
+        try:
+            body = group_lines(g)
+        except Exception as e:   # noqa: a missing anchor can surface as AttributeError on a failed re.search as well
+            errors[g] = (f"{type(e).__name__}: {e}" if not isinstance(e, RuntimeError) else str(e)).replace("\n", " ")
+            # keep the last values that could be read, so that everything that does not depend on this group still builds; the
+            # properties that do depend on it are reported by `check` (GEN_GROUPS)
+            body = [l for l in (old_block(g) or []) if not l.startswith("-- STALE")]
+            body = [f"-- STALE: group `{g}` could not be regenerated from the source: {errors[g]}"] + body
+        lines += [f"-- BEGIN {g}"] + body + [f"-- END {g}", ""]
+    lines += ["end NextestModel.Gen", ""]
     text = "\n".join(lines)
     os.makedirs(os.path.dirname(OUT), exist_ok=True)
     old = open(OUT).read() if os.path.exists(OUT) else None
     if old != text:
         open(OUT, "w").write(text)
-    return text
+    return errors
 
 
 if __name__ == "__main__":
-    print(run())
+    print(run() or "ok"); print(open(OUT).read())
